@@ -2,6 +2,7 @@ package runtime
 
 import (
 	"fmt"
+	"math"
 	"strings"
 
 	"github.com/smarthome-go/homescript/v3/homescript/compiler"
@@ -356,9 +357,17 @@ func (self *Core) runInstruction(instruction compiler.Instruction) *value.VmInte
 		}
 	case compiler.Opcode_Pow:
 		// TODO: improve performance here
-		r := (*self.pop()).(value.ValueInt).Inner
-		l := (*self.pop()).(value.ValueInt).Inner
-		self.push(value.NewValueInt(value.IntPow(l, r)))
+		r := *self.pop()
+		l := *self.pop()
+
+		switch l.Kind() {
+		case value.IntValueKind:
+			self.push(value.NewValueInt(value.IntPow(l.(value.ValueInt).Inner, r.(value.ValueInt).Inner)))
+		case value.FloatValueKind:
+			self.push(value.NewValueFloat(math.Pow(l.(value.ValueFloat).Inner, r.(value.ValueFloat).Inner)))
+		default:
+			panic("This value combination is unsupported")
+		}
 	case compiler.Opcode_Div:
 		r := *self.pop()
 		l := *self.pop()
